@@ -9,8 +9,8 @@
    `_refuted` theorems are counter-examples on the faithful model (reported as findings);
    `_partial` theorems are the strongest proved variant of a statement that does not hold in full. *)
 From Coq Require Import List Arith Bool.
-From GV Require Import lib.Lts model.ExecStack model.TaskSched model.BarrierMergeQueue model.BarrierStream
-  proofs.ExecStackProofs proofs.TaskSchedProofs proofs.BarrierMQProofs proofs.BarrierStreamProofs.
+From GV Require Import lib.Lts model.ExecStack model.TaskSched model.BarrierMergeQueue model.BarrierStream model.BarrierHashJoin
+  proofs.ExecStackProofs proofs.TaskSchedProofs proofs.BarrierMQProofs proofs.BarrierStreamProofs proofs.BarrierHJProofs.
 Import ListNotations.
 
 (* ---- proofs/ExecStackProofs.v ---- *)
@@ -316,3 +316,30 @@ Theorem C04_stream_progress_measure_decreases :
   sreach qs s -> sstep s s' -> s' <> s -> smeasure s' < smeasure s.
 Proof. exact stream_progress_measure_decreases. Qed.
 Print Assumptions C04_stream_progress_measure_decreases.
+
+(* ---- proofs/BarrierHJProofs.v ---- *)
+Theorem C04_hj_inv_parked_implies_flag_unset :
+  forall n s,
+  hreach false n s ->
+  (0 < count is_hpscan (hps s) -> sready s = false) /\
+  (0 < count is_hpdrain (hps s) -> dready s = false).
+Proof. exact hj_inv_parked_implies_flag_unset. Qed.
+Print Assumptions C04_hj_inv_parked_implies_flag_unset.
+
+Theorem C04_hj_no_error_path :
+  forall n s,
+  hreach false n s -> count is_herr (hps s) = 0.
+Proof. exact hj_no_error_path. Qed.
+Print Assumptions C04_hj_no_error_path.
+
+Theorem C04_hj_no_deadlock :
+  forall n s,
+  hreach false n s -> ~ hall_done s -> exists s', hstep false s s' /\ s' <> s.
+Proof. exact hj_no_deadlock. Qed.
+Print Assumptions C04_hj_no_deadlock.
+
+Theorem C04_hj_drain_deadlock_with_limit_refuted :
+  hreach true 2 hj_deadlock_state /\ ~ hall_done hj_deadlock_state /\
+  forall s', hstep true hj_deadlock_state s' -> s' = hj_deadlock_state.
+Proof. exact hj_drain_deadlock_with_limit_refuted. Qed.
+Print Assumptions C04_hj_drain_deadlock_with_limit_refuted.
